@@ -150,6 +150,14 @@ func runParScenario(seed uint64, size int, t *Trace) error {
 			}
 			auths = append(auths, SignAuth(ea, signer))
 		}
+		// a quarter of the bursts contain the week rotation itself. It is ONE critical section, so it takes
+		// effect at one point of the report log: every logged report of the week being archived precedes it
+		// (a later one would have been out of the window and left no trace), the others commute with it.
+		// No device is created or banned in such a burst (the archived week lists the devices of that instant).
+		withRot := r.Chance(25)
+		if withRot {
+			auths = nil
+		}
 		var servers []server.AuthorizedServer
 		for i := 0; i < r.Intn(3); i++ {
 			k := detKey(seed, 600+nextSrv)
@@ -216,6 +224,9 @@ func runParScenario(seed uint64, size int, t *Trace) error {
 			as := as
 			launch(func() { s.E.PostJSON("/api/v1/authorized-servers", as) })
 		}
+		if withRot {
+			launch(func() { s.E.S.VerifMigrateNow() })
+		}
 		nq := 4 + r.Intn(8)
 		for i := 0; i < nq; i++ {
 			kind := r.Intn(6)
@@ -260,6 +271,19 @@ func runParScenario(seed uint64, size int, t *Trace) error {
 			done[i] = true
 			t.Line("srv.dgram now=%d d=%s => %s", now, hx(dgrams[i]), obs)
 		}
+		// position of the rotation in the log: right after the last logged report of the archived week
+		rotAfter := int64(-1)
+		if withRot {
+			rotAfter = repLen0 - 80
+			for o := repLen0; o+80 <= int64(len(raw)); o += 80 {
+				if ts := binary.LittleEndian.Uint32(raw[o+4 : o+8]); ts < off+2016 {
+					rotAfter = o
+				}
+			}
+			if rotAfter < repLen0 {
+				t.Line("srv.rotate => ok")
+			}
+		}
 		for o := repLen0; o+80 <= int64(len(raw)); o += 80 {
 			rec := string(raw[o : o+80])
 			found := false
@@ -273,6 +297,12 @@ func runParScenario(seed uint64, size int, t *Trace) error {
 			if !found {
 				t.Line("srv.parcheck what=report-log-has-a-record-nobody-sent => FAILED")
 			}
+			if withRot && o == rotAfter {
+				t.Line("srv.rotate => ok")
+			}
+		}
+		if withRot {
+			t.Count("par:rotation-in-burst")
 		}
 		rawA, _ := os.ReadFile(s.E.Dir + "/equipment-authorizations.dat")
 		doneA := make([]bool, len(auths))
